@@ -55,6 +55,7 @@ def install(it):
     install_aw(it)
     install_vol(it)
     install_spec_prims(it)
+    install_concurrency(it)
 
 
 # =========================================================================== AwesomeVersion (T-aw)
@@ -469,11 +470,13 @@ def install_spec_prims(it):
         return ops.mk("bool", z3.And(z3.Not(lb.contains(t, lift(";")[1])), lb.rstrip(t) == t))
 
     def s_le16hex(it2, *words):
-        from .models import m_hexlify, m_struct_pack
+        from .models import le16hex_term
 
-        packed = m_struct_pack(it2, [f"<{len(words)}H"] + list(words), {})
-        hb = m_hexlify(it2, [packed], {})
-        return ops.mk("str", hb.text) if hasattr(hb, "text") else hb.decode("utf-8")
+        ws = []
+        for w in words:
+            kind, t = lift(w)
+            ws.append(z3.If(t, 1, 0) if kind == "bool" else t)
+        return ops.mk("str", le16hex_term(it2, ws))
 
     def s_hex_of(it2, data):
         from .models import m_hexlify
@@ -523,3 +526,107 @@ def version_ge_14_term(it, t):
     _aw_pair_law(it, st, ref)
     same = aw_string(ref) == aw_string(st)
     return z3.Or(same, z3.And(aw_known(ref), aw_known(st), z3.Not(aw_gt(ref, st))))
+
+
+# =========================================================================== threading / asyncio (T-serial, T-dict)
+def install_concurrency(it):
+    import asyncio
+    import threading
+
+    from .values import Awaitable, Coro, Modelled
+
+    g = it.ctx.ghost
+
+    def spawn(kind, target, args=()):
+        g.setdefault("spawned", []).append({"kind": kind, "target": target, "args": list(args)})
+
+    def m_timer(it2, a, k):
+        interval, fn = a[0], a[1]
+        t = Modelled("Timer")
+
+        def start(it3, aa, kk):
+            spawn("timer", fn)
+            g["timers_armed"] = g.get("timers_armed", 0) + 1
+            return None
+
+        def cancel(it3, aa, kk):
+            g["timers_cancelled"] = g.get("timers_cancelled", 0) + 1
+            return None
+
+        t.attrs.update(start=ModelFn("Timer.start", start), cancel=ModelFn("Timer.cancel", cancel), interval=interval)
+        return t
+
+    def m_thread(it2, a, k):
+        target = k.get("target")
+        t = Modelled("Thread")
+        t.attrs.update(
+            start=ModelFn("Thread.start", lambda it3, aa, kk: spawn("thread", target, k.get("args", ()))),
+            daemon=False,
+        )
+        return t
+
+    def m_event(it2, a, k):
+        e = Modelled("Event")
+        state = {"set": False}
+        e.attrs.update(
+            is_set=ModelFn("Event.is_set", lambda it3, aa, kk: state["set"]),
+            set=ModelFn("Event.set", lambda it3, aa, kk: state.__setitem__("set", True)),
+        )
+        return e
+
+    def m_lock(it2, a, k):
+        l = Modelled("Lock")
+        l.attrs.update(
+            __enter__=ModelFn("Lock.__enter__", lambda it3, aa, kk: None),
+            __exit__=ModelFn("Lock.__exit__", lambda it3, aa, kk: False),
+        )
+        return l
+
+    def m_loop(it2, a, k):
+        loop = Modelled("loop")
+
+        def run_in_executor(it3, aa, kk):
+            fn, rest = aa[1], aa[2:]
+            return Awaitable(lambda it4: it4.call(fn, list(rest), {}), "run_in_executor")
+
+        def create_task(it3, aa, kk):
+            coro = aa[0]
+            spawn("task", coro)
+            task = Modelled("Task")
+            st = {"cancelled": False}
+            task.attrs.update(
+                cancel=ModelFn("Task.cancel", lambda it4, a4, k4: st.__setitem__("cancelled", True)),
+                cancelled=ModelFn("Task.cancelled", lambda it4, a4, k4: st["cancelled"]),
+            )
+            task._pyvc_await = lambda it4: None
+            return task
+
+        def call_later(it3, aa, kk):
+            spawn("call_later", aa[1])
+            h = Modelled("TimerHandle")
+            h.attrs.update(cancel=ModelFn("TimerHandle.cancel", lambda it4, a4, k4: None))
+            return h
+
+        loop.attrs.update(
+            run_in_executor=ModelFn("loop.run_in_executor", run_in_executor),
+            create_task=ModelFn("loop.create_task", create_task),
+            call_later=ModelFn("loop.call_later", call_later),
+        )
+        return loop
+
+    def m_sleep(it2, a, k):
+        def on_await(it3):
+            kk = it3.ctx.choose([z3.BoolVal(True), z3.BoolVal(True)], labels=["slept", "cancelled"], site="asyncio.sleep")
+            g.setdefault("sleeps", []).append(a[0] if a else None)
+            if kk == 1:
+                raise PyRaise(ExcVal(asyncio.CancelledError, (), site="asyncio.sleep"))
+            return None
+
+        return Awaitable(on_await, "sleep")
+
+    it.models[id(threading.Timer)] = ModelFn("threading.Timer", m_timer)
+    it.models[id(threading.Thread)] = ModelFn("threading.Thread", m_thread)
+    it.models[id(threading.Event)] = ModelFn("threading.Event", m_event)
+    it.models[id(threading.Lock)] = ModelFn("threading.Lock", m_lock)
+    it.models[id(asyncio.get_running_loop)] = ModelFn("asyncio.get_running_loop", m_loop)
+    it.models[id(asyncio.sleep)] = ModelFn("asyncio.sleep", m_sleep)
